@@ -1176,12 +1176,14 @@ def rule_shm_couple(ctx, cfg, F):
         if f.impl_trait == "std::clone::Clone":
             # fresh store from a duplicated descriptor
             sroots = tr.roots_of_operand(sop)
-            fresh = any(r.kind == "call" and r.id.endswith("BackingStore::from_fd") for r in sroots)
-            dupd = False
+            # every way the clone's store can come about (also a fallback taken when duplicating fails) is a store of its own around a duplicated descriptor
+            fresh = bool(sroots) and all(r.kind == "call" and r.id.endswith("BackingStore::from_fd") for r in sroots)
+            dupd = fresh
             for r in sroots:
                 if r.kind == "call" and r.id.endswith("BackingStore::from_fd"):
                     a = f.term(r.block)["args"][0]
-                    dupd = any(x.kind == "call" and x.id in ("libc::fcntl", "libc::dup", "libc::dup3") for x in tr.roots_of_operand(a))
+                    ar = tr.roots_of_operand(a)
+                    dupd = dupd and bool(ar) and all(x.kind == "call" and x.id in ("libc::fcntl", "libc::dup", "libc::dup3") for x in ar)
             if fresh and dupd:
                 R.ok("Clone maps a fresh store built from a duplicated descriptor", f.loc(b), cfg)
             else:
